@@ -23,6 +23,9 @@ pub enum Op {
     /// reopen_output() is called (log rotation by an external tool): the writer continues in a
     /// fresh file at the original path
     MoveAwayAndReopen,
+    /// like MoveAwayAndReopen, but the external tool also creates an empty file at the original
+    /// path before reopen_output() is called (logrotate's `create` mode)
+    MoveAwayRecreateAndReopen,
     /// reopen_output() without any external action (no flush before it): the file, its size and
     /// its start time stay what they are; records still buffered belong to it
     Reopen,
@@ -92,6 +95,7 @@ pub fn ops_strat_f(
     if with_failures {
         opts.push((1, len_strat(n, cap, le).prop_map(Op::FailWrite).boxed()));
         opts.push((1, Just(Op::MoveAwayAndReopen).boxed()));
+        opts.push((1, Just(Op::MoveAwayRecreateAndReopen).boxed()));
         opts.push((1, Just(Op::Reopen).boxed()));
         opts.push((1, Just(Op::ResetSame).boxed()));
     }
@@ -203,7 +207,7 @@ impl<'a> Exec<'a> {
                 hh.set_mode(prev);
                 self.failed_writes += 1;
             }
-            Op::MoveAwayAndReopen => {
+            Op::MoveAwayAndReopen | Op::MoveAwayRecreateAndReopen => {
                 // only once the writer has opened its file, only in sync modes (the writer
                 // thread of an async mode may still hold queued records), and not for namings
                 // that write directly to a numbered/timestamped file (their current file is found
@@ -222,6 +226,14 @@ impl<'a> Exec<'a> {
                 };
                 self.moved += 1;
                 std::fs::rename(dir.join(&cur.name), dir.join(format!("moved-away-{}.bak", self.moved))).map_err(|e| format!("external rename: {e}"))?;
+                if matches!(op, Op::MoveAwayRecreateAndReopen) {
+                    let p = dir.join(&cur.name);
+                    if std::fs::OpenOptions::new().write(true).create_new(true).open(&p).is_ok() {
+                        if let Some(t) = h().time() {
+                            h().register_birth(&p, t);
+                        }
+                    }
+                }
                 sess.reopen().map_err(|e| format!("reopen_output failed: {e}"))?;
                 let now = self.now();
                 self.model.current_moved_away(now);
